@@ -39,6 +39,25 @@ fn life_cfg(heartbeat: u16) -> LifeCfg {
     }
 }
 
+/// A third of the sessions: the connection's owner keeps opening (and closing) channels while the workers run, so
+/// that an open_channel request - which travels through the I/O thread's allocation queue, not a channel's - is
+/// often in flight when the connection dies.
+fn owner_opens(cs: &mut amiquip_simrt::ChoiceStream, life: &mut Life) {
+    if cs.choose("c05_owner_opens", 3) == 0 && life.gen.plan.join_before_close {
+        let n = 2 + cs.choose("c05_owner_open_n", 10);
+        let mut ops = Vec::new();
+        for _ in 0..n {
+            ops.push(crate::session::OwnerOp::OpenChannel { id: None, keep: false });
+            let gap = *crate::gen::pick(cs, "c05_owner_open_gap", &[0u64, 20_000, 200_000]);
+            if gap > 0 {
+                ops.push(crate::session::OwnerOp::SleepNs(gap));
+            }
+        }
+        ops.append(&mut life.gen.plan.owner_ops);
+        life.gen.plan.owner_ops = ops;
+    }
+}
+
 fn build(seed: u64) -> (Life, amiquip_simrt::ChoiceStream) {
     let mut cs = amiquip_simrt::ChoiceStream::generate(seed);
     let hb = if cs.choose("c05_heartbeat", 3) == 0 { 1 } else { 0 };
@@ -53,6 +72,7 @@ fn build(seed: u64) -> (Life, amiquip_simrt::ChoiceStream) {
     if cs.choose("c05_close_by_drop", 4) == 0 {
         life.gen.plan.close = crate::session::CloseKind::Drop;
     }
+    owner_opens(&mut cs, &mut life);
     (life, cs)
 }
 
@@ -168,6 +188,7 @@ impl Scenario for C05 {
             if r.choose("c05_close_by_drop", 4) == 0 {
                 l2.gen.plan.close = crate::session::CloseKind::Drop;
             }
+            owner_opens(&mut r, &mut l2);
             life = l2;
             cs = r;
         }
